@@ -250,11 +250,19 @@ class NakPdu(AbstractFileDirectiveBase):
         """
         nak_pdu = cls.__empty()
         nak_pdu.pdu_file_directive = FileDirectivePduBase.unpack(raw_packet=data)
-        nak_pdu.pdu_file_directive.verify_length_and_checksum(data)
+        packet_len = nak_pdu.pdu_file_directive.pdu_header.verify_length_and_checksum(
+            data
+        )
         if nak_pdu.pdu_file_directive.directive_type != DirectiveType.NAK_PDU:
             raise ValueError(
                 f"invalid PDU directive type for NAK PDU: "
                 f"{nak_pdu.pdu_file_directive.directive_type}"
+            )
+        # The number of segment requests follows from the PDU length only, so octets behind the
+        # declared end of the PDU must not be taken for segment requests.
+        if len(data) > packet_len:
+            raise ValueError(
+                f"{len(data) - packet_len} surplus bytes after NAK PDU with length {packet_len}"
             )
         current_idx = nak_pdu.pdu_file_directive.header_len
         if not nak_pdu.pdu_file_directive.pdu_header.large_file_flag_set:
@@ -262,7 +270,7 @@ class NakPdu(AbstractFileDirectiveBase):
         else:
             struct_arg_tuple = ("!Q", 8)
         # The segment requests end in front of the CRC trailer, if there is one
-        end_of_segment_requests = len(data)
+        end_of_segment_requests = packet_len
         if nak_pdu.pdu_file_directive.pdu_conf.crc_flag == CrcFlag.WITH_CRC:
             end_of_segment_requests -= 2
         if current_idx + 2 * struct_arg_tuple[1] > end_of_segment_requests:
